@@ -18,6 +18,7 @@ def main():
     random.seed(len(jobs))
     numpy.random.seed(7)
     from props import chaos
+    jobs = [[bytes.fromhex(s["bytes"]) if isinstance(s, dict) else s, c] for s, c in jobs]
     if how == "direct":
         out = [chaos.ChaosModel(s, json.dumps(c, sort_keys=True)).run_all() for s, c in jobs]
     else:
